@@ -301,6 +301,12 @@ func (ls *LState) RegisterModule(name string, funcs map[string]LGFunction) LValu
 			return newmodtb
 		}
 	}
+	// the module table already exists (registered or loaded before): add the functions to it
+	if modtb, ok := mod.(*LTable); ok {
+		for fname, fn := range funcs {
+			modtb.RawSetString(fname, ls.NewFunction(fn))
+		}
+	}
 	return mod
 }
 
